@@ -201,6 +201,26 @@ fn run_op(root: &Path, o: &Value) -> (Value, Value) {
         "owrite_x" => owrite(fs::OpenOptions::new().write(true).create_new(true)),
         "owrite_t" => owrite(fs::OpenOptions::new().write(true).truncate(true)),
         "owrite_p" => owrite(fs::OpenOptions::new().write(true)),
+        "oopen" => {
+            let f: Vec<bool> = o["f"].as_array().unwrap().iter().map(|x| x.as_bool().unwrap()).collect();
+            let mut opts = fs::OpenOptions::new();
+            opts.read(f[0]).write(f[1]).append(f[2]).truncate(f[3]).create(f[4]).create_new(f[5]);
+            let writable = f[1] || f[2];
+            wrap(
+                guarded(|| {
+                    let mut file = opts.open(&p)?;
+                    if writable {
+                        file.write_all(cbytes.as_ref().unwrap())?;
+                        Ok(None)
+                    } else {
+                        let mut v = Vec::new();
+                        file.read_to_end(&mut v)?;
+                        Ok(Some(v))
+                    }
+                }),
+                |v| v.map_or(json!([]), |v| content(&v)),
+            )
+        }
         "read" => wrap(guarded(|| fs::read(&p)), |v| content(&v)),
         "read_file" => wrap(
             guarded(|| {
